@@ -201,9 +201,10 @@ fn gen_real<T: Nums>(r: &mut Rng, positive: bool) -> Piecewise<T> {
     } else {
         gen_ends_any(r, n).0
     };
-    let coeffs: Vec<Vec<f64>> = (0..ends.len())
+    let mut coeffs: Vec<Vec<f64>> = (0..ends.len())
         .map(|_| (0..T::LEN).map(|_| if r.chance(0.1) { 0.0 } else { r.mixed(4.0) }).collect())
         .collect();
+    repeat_some_pieces(r, &mut coeffs);
     pw_from(&ends, &coeffs)
 }
 
